@@ -58,6 +58,46 @@ fn gamma(a: Decimal) -> Option<Decimal> {
         .checked_mul(compute_pow)
 }
 
+/// Principal branch of the Lambert W function by Halley's iteration, run until
+/// it converges (at most 64 steps).
+fn lambert_w(x: Decimal) -> Option<Decimal> {
+    if x.is_zero() {
+        return Some(Decimal::ZERO);
+    }
+    let one = Decimal::new(1, 0);
+    let two = Decimal::new(2, 0);
+    // Starting point: ln x - ln ln x for large x, the series around the branch
+    // point -1/e near it, ln(1 + x) in between.
+    let mut w = if x > Decimal::new(3, 0) {
+        let l = x.checked_ln()?;
+        l - l.checked_ln()?
+    } else if x < Decimal::new(-25, 2) {
+        let p = (two * (Decimal::E * x + one)).max(Decimal::ZERO).sqrt()?;
+        -one + p - p * p / Decimal::new(3, 0) + Decimal::new(11, 0) * p * p * p / Decimal::new(72, 0)
+    } else {
+        (one + x).checked_ln()?
+    };
+    for _ in 0..64 {
+        #[cfg(feature = "verif_hooks")]
+        crate::verif_hooks::tick();
+        let exp_w = w.checked_exp()?;
+        let f = w.checked_mul(exp_w)?.checked_sub(x)?;
+        let correction = match (w + two).checked_mul(f)?.checked_div(two * w + two) {
+            Some(correction) => correction,
+            None => break,
+        };
+        let step = match f.checked_div(exp_w.checked_mul(w + one)?.checked_sub(correction)?) {
+            Some(step) => step,
+            None => break,
+        };
+        w -= step;
+        if step.abs() <= Decimal::new(1, 24) * w.abs() {
+            break;
+        }
+    }
+    Some(w)
+}
+
 fn overflow() -> Box<dyn error::Error> {
     "The result is outside the range of Decimal".into()
 }
@@ -148,21 +188,7 @@ pub fn eval(expr: Node) -> Result<Decimal, Box<dyn error::Error>> {
             if sub_expr < -Decimal::new(-1, 0).exp() {
                 return Err("The Lambert W function is not defined for {}.".into());
             }
-            let iterations = (Decimal::new(4, 0))
-                .max((sub_expr.log10() / Decimal::new(3, 0)).ceil())
-                .to_i32()
-                .unwrap_or(4);
-            let mut w = Decimal::ZERO;
-            for _ in 0..iterations {
-                #[cfg(feature = "verif_hooks")]
-                crate::verif_hooks::tick();
-                let exp_w = w.exp();
-                w -= (w * exp_w - sub_expr)
-                    / (exp_w * (w + Decimal::new(1, 0))
-                        - (w + Decimal::new(2, 0)) * (w * exp_w - sub_expr)
-                            / (Decimal::new(2, 0) * w + Decimal::new(2, 0)));
-            }
-            Ok(w)
+            lambert_w(sub_expr).ok_or_else(overflow)
         }
         ILog(expr1, expr2) => {
             let mut n = eval(*expr1)?;
